@@ -70,7 +70,7 @@ def _defassign(holder):
     class Walk(Visitor.TreeVisitor):
         def __init__(self):
             super().__init__()
-            self.func = []
+            self.ctx = "c"      # one letter per enclosing finally block copy: n = normal/jump copy, x = exception copy
 
         def visit_Node(self, node):
             self.visitchildren(node)
@@ -92,6 +92,15 @@ def _defassign(holder):
                 facts["errors"].append(repr(e))
             self.visitchildren(node)
 
+        def visit_TryFinallyStatNode(self, node):
+            ctx = self.ctx
+            self.visitchildren(node, attrs=[a for a in node.child_attrs if a not in ("finally_clause", "finally_except_clause")])
+            self.ctx = ctx + "n"
+            self.visitchildren(node, attrs=["finally_clause"])
+            self.ctx = ctx + "x"
+            self.visitchildren(node, attrs=["finally_except_clause"])
+            self.ctx = ctx
+
         def visit_NameNode(self, node):
             try:
                 entry = node.entry
@@ -99,7 +108,7 @@ def _defassign(holder):
                     t = entry.type
                     facts["gen"].append({"line": int(node.pos[1]), "col": int(node.pos[2]), "name": str(node.name),
                                          "mn": bool(node.cf_maybe_null), "isn": bool(node.cf_is_null),
-                                         "allow_null": bool(node.allow_null),
+                                         "allow_null": bool(node.allow_null), "ctx": self.ctx,
                                          "pyobject": bool(getattr(t, "is_pyobject", False))})
             except Exception as e:
                 facts["errors"].append(repr(e))
